@@ -94,6 +94,8 @@ Proof. exact getaxes_cons_int. Qed.
 Theorem C01_axes_full : forall ax axs ps, getaxes (ax :: axs) (XFull :: ps) = ax :: getaxes axs ps.
 Proof. exact getaxes_cons_full. Qed.
 Print Assumptions C01_axes_pos.
+Print Assumptions C01_axes_int.
+Print Assumptions C01_axes_full.
 
 (* non-vacuity *)
 (* completeness: argsort + searchsorted + clip + guard finds EVERY label that is on the axis (duplicates and any
